@@ -241,6 +241,12 @@ SHAPES = [
     {   # a comprehension variable named like a global that the function reads; __debug__
         "body": "LIMIT = 3\ndef f(p):\n    kept = [LIMIT + __s__(1, 0) for LIMIT in [p, p + 1]]\n    if __debug__:\n        y = LIMIT + kept[0]\n    return y\n",
         "names": ["p", "kept", "y", "LIMIT"], "args": ["((1,), {})"]},
+    {   # comprehensions with several for clauses: a later iterable / filter reads an earlier variable
+        "body": "def f(p):\n    rows = [[p, __s__(1, p)], [p + 1]]\n    flat = [c + __s__(2, 0) for row in rows for c in row if row]\n    pairs = {a: b for a in flat for b in [a, p] if a != b}\n    return flat, pairs\n",
+        "names": ["p", "rows", "flat", "pairs"], "args": ["((1,), {})", "((5,), {})"]},
+    {   # a comprehension variable named like the global its outermost iterable reads
+        "body": "ITEMS = [3, 4]\ndef f(p):\n    got = [ITEMS + __s__(1, p) for ITEMS in ITEMS]\n    return got\n",
+        "names": ["p", "got", "ITEMS"], "args": ["((1,), {})"]},
     {   # functools.wraps of something that is not a Python function
         "body": "import functools\n@functools.wraps(len)\ndef f(p):\n    n = len([p]) + __s__(1, p)\n    return n\n",
         "names": ["p", "n"], "args": ["((1,), {})"]},
